@@ -144,14 +144,85 @@ def api_writers(ct, cname, fields):
     return sorted(set(out))
 
 
-def exclusion_list(fn):
-    """the list literal in `k not in [...]` of a generic to_dict."""
+def exclusion_list(fn, repo=None):
+    """(syntactic fallback) the list literal in `k not in [...]` / `k in (...)` of a generic to_dict, also through a module constant."""
     for n in walk(fn):
-        if isinstance(n, ast.Compare) and len(n.ops) == 1 and isinstance(n.ops[0], ast.NotIn) and isinstance(n.comparators[0], (ast.List, ast.Tuple)):
-            vals = [const(e) for e in n.comparators[0].elts]
-            if vals and all(isinstance(v, str) for v in vals):
-                return set(vals)
+        if isinstance(n, ast.Compare) and len(n.ops) == 1 and isinstance(n.ops[0], (ast.NotIn, ast.In)):
+            lst = n.comparators[0]
+            if isinstance(lst, ast.Name) and repo is not None:
+                try:
+                    lst = repo.module_assign(fn._rel, lst.id)
+                except AnchorError:
+                    continue
+            if isinstance(lst, (ast.List, ast.Tuple, ast.Set)):
+                vals = [const(e) for e in lst.elts]
+                if vals and all(isinstance(v, str) for v in vals):
+                    return set(vals)
     raise ExtractError("exclusion list of %s not found" % fn._qual)
+
+
+def generic_emitter(repo, fn):
+    """decides, by EVALUATING a generic to_dict (the one that walks dir(self)) for one attribute name at a time, whether the
+    name ends up as a key: emits(k) for a plain value, emits(k, 'ref') for a value that is an object reference (has to_ref)
+    whose `<k>_name` twin is set.  The shape of the filter (nested ifs, guard clauses with continue, inline list or module
+    constant, extracted conversion helper) does not matter.  Raises ExtractError when the function leaves the evaluable fragment."""
+    from ..peval import Obj, Unknown, Raised
+    Ev, hook0 = concrete_evaluator(repo)
+    rel = fn._rel
+
+    def consts(d):
+        if "." in d:
+            raise Unknown("unknown dotted name %s" % d)
+        try:
+            node = repo.module_assign(rel, d)
+        except AnchorError:
+            raise Unknown("unbound name %s" % d)
+        return Ev({}, consts, hook0).ev(node)
+
+    cache = {}
+
+    def emits(k, mode="plain"):
+        if (k, mode) in cache:
+            return cache[(k, mode)]
+        me, val = Obj("self", {}), Obj("value of the attribute", {})
+
+        def hook(name, n, ev):
+            if name == "dir" and len(n.args) == 1:
+                return [k]
+            if name == "getattr" and len(n.args) >= 2:
+                o, a = ev.ev(n.args[0]), ev.ev(n.args[1])
+                if o is me:
+                    return val if a == k else Obj("self.%s" % a, {})
+            if name == "hasattr" and len(n.args) == 2:
+                o, a = ev.ev(n.args[0]), ev.ev(n.args[1])
+                if o is val:
+                    return mode == "ref" and a == "to_ref"
+                if o is me:
+                    return mode == "ref" and a == k + "_name"
+            if name == "isinstance" and len(n.args) == 2 and ev.ev(n.args[0]) is val:
+                return False        # neither a bound method nor an enum member
+            if isinstance(n.func, ast.Attribute) and n.func.attr in ("to_ref", "to_list", "to_dict") and ev.ev(n.func.value) is val:
+                return Obj("image of the value", {})
+            return hook0(name, n, ev)
+
+        def attr_hook(obj, attr):
+            if obj is me:
+                return Obj("self.%s" % attr, {})
+            return NotImplemented
+        try:
+            res = Ev({params_all(fn)[0]: me}, consts, hook, attr_hook).run(fn.body)
+        except (Unknown, Raised, _PyExc, _Continue, _Break) as e:
+            raise ExtractError("%s is not evaluable for the attribute %r: %s" % (fn._qual, k, e))
+        if not isinstance(res, dict):
+            raise ExtractError("%s does not return the dictionary it builds (got %r)" % (fn._qual, res))
+        cache[(k, mode)] = k in res
+        return cache[(k, mode)]
+    return emits
+
+
+def params_all(fn):
+    a = fn.args
+    return [x.arg for x in a.posonlyargs + a.args]
 
 
 def generic_walks_dir(fn):
@@ -378,14 +449,38 @@ def resolve_landing(repo, branch, key, wn_cls_methods, reg_methods, ct=None, cla
     return lands
 
 
+def returned_dicts(fn):
+    """the dictionaries a to_dict can return, one per path ({key: value}); built key by key, by dict(k=..), by a dict display or
+    by update() -- all the same.  [] when the function does not return a dictionary it builds in that way."""
+    try:
+        vals = TemplateExec(fn).returns()
+    except ExtractError:
+        return []
+    if not vals or not all(isinstance(v, dict) for v in vals):
+        return []
+    return vals
+
+
 def explicit_dict_keys(fn):
-    """keys of an explicit to_dict: dict(k=..) calls and d['k'] = .. stores; returns {key: conditional?}"""
+    """keys of an explicit to_dict -> {key: conditional?} (conditional = not on every path)."""
+    ds = returned_dicts(fn)
+    if ds:
+        allk = []
+        for d_ in ds:
+            for k in d_:
+                if k not in allk:
+                    allk.append(k)
+        return {k: not all(k in d_ for d_ in ds) for k in allk}
     out = {}
     for n in walk(fn):
         if isinstance(n, ast.Call) and isinstance(n.func, ast.Name) and n.func.id == "dict":
             for kw in n.keywords:
                 if kw.arg:
                     out[kw.arg] = False
+        if isinstance(n, ast.Dict):
+            for k in n.keys:
+                if isinstance(const(k), str):
+                    out[const(k)] = False
         if isinstance(n, ast.Assign):
             for t in n.targets:
                 if isinstance(t, ast.Subscript) and isinstance(const(t.slice), str):
@@ -555,6 +650,8 @@ class TemplateExec(object):
             return "<%r>" % v
         if isinstance(v, list):
             return "[%s]" % ", ".join(self.vtext(x) for x in v)
+        if isinstance(v, dict):
+            return "{%s}" % ", ".join("%r: %s" % (k, self.vtext(x)) for k, x in v.items())
         return repr(v)
 
     def subst(self, n, env):
@@ -587,6 +684,14 @@ class TemplateExec(object):
             return Sym(n.id)
         if isinstance(n, (ast.Tuple, ast.List)):
             return [self.ev(e, env) for e in n.elts]
+        if isinstance(n, ast.Dict) and all(k is not None for k in n.keys):
+            out = {}
+            for k, v in zip(n.keys, n.values):
+                kk = self.ev(k, env)
+                out[kk if isinstance(kk, (str, int)) else self.vtext(kk)] = self.ev(v, env)
+            return out
+        if isinstance(n, ast.Call) and isinstance(n.func, ast.Name) and n.func.id == "dict" and not n.args and all(k.arg for k in n.keywords):
+            return {k.arg: self.ev(k.value, env) for k in n.keywords}
         if isinstance(n, ast.JoinedStr):
             t = Tmpl()
             for part in n.values:
@@ -607,7 +712,7 @@ class TemplateExec(object):
             return t
         if isinstance(n, ast.IfExp):
             c = self.ev(n.test, env)
-            if isinstance(c, (Sym, Tmpl, list)):
+            if isinstance(c, (Sym, Tmpl, list, dict)):
                 c = self.decide()
             return self.ev(n.body if c else n.orelse, env)
         if isinstance(n, ast.BinOp) and isinstance(n.op, ast.Add):
@@ -733,6 +838,19 @@ class TemplateExec(object):
             self.stmt(s, env)
 
     def stmt(self, s, env):
+        if isinstance(s, ast.Expr) and isinstance(s.value, ast.Call) and isinstance(s.value.func, ast.Attribute) and s.value.func.attr == "update" \
+                and isinstance(s.value.func.value, ast.Name) and isinstance(env.get(s.value.func.value.id), dict):
+            tgt = env[s.value.func.value.id]
+            for a in s.value.args:
+                v = self.ev(a, env)
+                if not isinstance(v, dict):
+                    raise ExtractError("%s: update() with %s is outside the fragment" % (getattr(self.fn, "_qual", self.fn.name), unparse(a)))
+                tgt.update(v)
+            for k in s.value.keywords:
+                if k.arg is None:
+                    raise ExtractError("%s: update(**..) is outside the fragment" % getattr(self.fn, "_qual", self.fn.name))
+                tgt[k.arg] = self.ev(k.value, env)
+            return
         if isinstance(s, (ast.Pass, ast.Expr, ast.Import, ast.ImportFrom)):
             return
         if isinstance(s, ast.Assign):
@@ -740,6 +858,9 @@ class TemplateExec(object):
             for t in s.targets:
                 if isinstance(t, ast.Name):
                     env[t.id] = v
+                elif isinstance(t, ast.Subscript) and isinstance(t.value, ast.Name) and isinstance(env.get(t.value.id), dict):
+                    kk = self.ev(t.slice, env)
+                    env[t.value.id][kk if isinstance(kk, (str, int)) else self.vtext(kk)] = v
                 elif isinstance(t, (ast.Tuple, ast.List)) and isinstance(v, list) and len(v) == len(t.elts) and all(isinstance(e, ast.Name) for e in t.elts):
                     for e, x in zip(t.elts, v):
                         env[e.id] = x
@@ -753,7 +874,7 @@ class TemplateExec(object):
             return
         if isinstance(s, ast.If):
             c = self.ev(s.test, env)
-            if isinstance(c, (Sym, Tmpl, list)):
+            if isinstance(c, (Sym, Tmpl, list, dict)):
                 c = self.decide()
             self.block(s.body if c else s.orelse, env)
             return
@@ -818,7 +939,17 @@ def rule_keys(repo, chk):
     for f in (node_td, link_td):
         if not generic_walks_dir(f):
             raise ExtractError("%s no longer walks dir(self): the key derivation does not apply" % f._qual)
-    excl = {"node": exclusion_list(node_td), "link": exclusion_list(link_td)}
+    # which public attributes become keys: the generic to_dict is evaluated per attribute name (syntactic reading of the
+    # exclusion list only if it is outside the evaluable fragment)
+    emits = {}
+    for kind_, f in (("node", node_td), ("link", link_td)):
+        try:
+            em = generic_emitter(repo, f)
+            em("name")
+            emits[kind_] = em
+        except ExtractError:
+            ex_ = exclusion_list(f, repo)
+            emits[kind_] = (lambda ex_, kind_: (lambda k, mode="plain": k not in ex_ and not (mode == "ref" and kind_ == "link")))(ex_, kind_)
     wn_methods = {n.name: n for n in repo.cls(MODEL, "WaterNetworkModel").body if isinstance(n, ast.FunctionDef)}
     for n in wn_methods.values():
         n._rel = MODEL
@@ -845,9 +976,9 @@ def rule_keys(repo, chk):
                     raise AnchorError("class %s vanished from elements.py" % cn)
                 pub = ct.public(cn)
                 for k, info in pub.items():
-                    if k in excl[kind]:
+                    if not emits[kind](k):
                         continue
-                    if kind == "link" and (k + "_name") in pub:
+                    if (k + "_name") in pub and not emits[kind](k, "ref"):
                         continue      # object view of a *_name key (Link.to_dict skips it when the name is set)
                     emitted.setdefault(k, []).append((cn, info))
             sample = {"class": tname, "emitted": sorted(emitted), "consumed": sorted(br.consumed)}
@@ -901,6 +1032,36 @@ def rule_keys(repo, chk):
     return ct, fd
 
 
+def demand_entry_reads(body):
+    """keys read from the FIRST entry of a list-valued key and from every FURTHER entry, in a from_dict branch: reads through
+    `lst[0].setdefault('k')` / `.get('k')` / `['k']`, directly or through a temporary bound to the entry (`first = lst[0]`,
+    `entry = lst[i]`, `for entry in lst[1:]`)."""
+    mod = ast.Module(body=list(body), type_ignores=[])
+    role = {}
+
+    def entry_kind(e):
+        if isinstance(e, ast.Name):
+            return role.get(e.id)
+        if isinstance(e, ast.Subscript) and isinstance(e.value, ast.Name) and not isinstance(e.slice, ast.Slice) and not isinstance(const(e.slice), str):
+            return "first" if const(e.slice) == 0 else "further"
+        return None
+    for _ in range(2):
+        for n in ast.walk(mod):
+            if isinstance(n, ast.Assign) and len(n.targets) == 1 and isinstance(n.targets[0], ast.Name) and entry_kind(n.value):
+                role[n.targets[0].id] = entry_kind(n.value)
+            if isinstance(n, ast.For) and isinstance(n.target, ast.Name) and isinstance(n.iter, ast.Subscript) and isinstance(n.iter.slice, ast.Slice) \
+                    and isinstance(const(n.iter.slice.lower), int) and const(n.iter.slice.lower) >= 1:
+                role[n.target.id] = "further"
+    out = {"first": set(), "further": set()}
+    for n in ast.walk(mod):
+        if (isinstance(n, ast.Call) and isinstance(n.func, ast.Attribute) and n.func.attr in ("setdefault", "get", "pop") and n.args
+                and isinstance(const(n.args[0]), str) and entry_kind(n.func.value)):
+            out[entry_kind(n.func.value)].add(const(n.args[0]))
+        if isinstance(n, ast.Subscript) and isinstance(const(n.slice), str) and entry_kind(n.value):
+            out[entry_kind(n.value)].add(const(n.slice))
+    return out["first"], out["further"]
+
+
 def rule_explicit(repo, chk, fd):
     """Pattern / Curve / Source / TimeSeries: explicit to_dict keys vs from_dict reads."""
     table = [("Pattern", "patterns", "pattern"), ("Curve", "curves", "curve"), ("Source", "sources", "source")]
@@ -928,13 +1089,7 @@ def rule_explicit(repo, chk, fd):
     keys = explicit_dict_keys(td)
     var, bodies, loop = find_branches(fd, "nodes", "node_type")
     jb = bodies.get("Junction", [])
-    reads0, readsi = set(), set()
-    for s in jb:
-        for n in ast.walk(s):
-            if (isinstance(n, ast.Call) and isinstance(n.func, ast.Attribute) and n.func.attr in ("setdefault", "get") and isinstance(n.func.value, ast.Subscript)
-                    and isinstance(n.func.value.value, ast.Name) and n.args and isinstance(const(n.args[0]), str)):
-                idx = n.func.value.slice
-                (reads0 if const(idx) == 0 else readsi).add(const(n.args[0]))
+    reads0, readsi = demand_entry_reads(jb)
     for k in sorted(keys):
         chk.expect(k in reads0, "R-C13-1b", "demand entry key %r is read for the first demand" % k, loc(fd, loop), found=sorted(reads0))
         chk.expect(k in readsi, "R-C13-1b", "demand entry key %r is read for every further demand" % k, loc(fd, loop), found=sorted(readsi))
@@ -1001,6 +1156,121 @@ class _PyExc(Exception):
         self.kind = kind
 
 
+class _Continue(Exception):
+    pass
+
+
+class _Break(Exception):
+    pass
+
+
+def _type_names(t):
+    if isinstance(t, (ast.Tuple, ast.List)):
+        out = set()
+        for e in t.elts:
+            out |= _type_names(e)
+        return out
+    return {dotted(t) or unparse(t)}
+
+
+def concrete_evaluator(repo):
+    """the partial evaluator of sa/peval.py with the modelled str / re calls of _shared._string_evaluator, extended by the
+    statement and expression forms small dispatch code uses: dict displays, `d[k]` loads and stores, `k in d`, `d.get(k)`,
+    `for x in <concrete list>` with continue / break, try/except around a modelled failing lookup.
+    -> (Evaluator class, call hook); nothing of the repository runs."""
+    from ._shared import _string_evaluator
+    Base, base_hook = _string_evaluator(repo)
+
+    def hook(name, n, ev):
+        if isinstance(n.func, ast.Attribute) and n.func.attr == "get" and 1 <= len(n.args) <= 2 and not n.keywords:
+            base = ev.ev(n.func.value)
+            if isinstance(base, dict):
+                return base.get(ev.ev(n.args[0]), ev.ev(n.args[1]) if len(n.args) == 2 else None)
+        if name == "dict" and not n.args:
+            return {k.arg: ev.ev(k.value) for k in n.keywords}
+        if name in ("list", "tuple") and not n.args and not n.keywords:
+            return []
+        return base_hook(name, n, ev)
+
+    class Ev(Base):
+        def e_Dict(self, n):
+            return {self.ev(k): self.ev(v) for k, v in zip(n.keys, n.values)}
+
+        def e_Subscript(self, n):
+            b = self.ev(n.value)
+            if isinstance(b, dict):
+                k = self.ev(n.slice)
+                if k in b:
+                    return b[k]
+                raise _PyExc("KeyError")
+            return self.subscript_of(b, n)
+
+        def subscript_of(self, b, n):
+            if isinstance(b, (str, list, tuple)):
+                if isinstance(n.slice, ast.Slice):
+                    lo = self.ev(n.slice.lower) if n.slice.lower is not None else None
+                    hi = self.ev(n.slice.upper) if n.slice.upper is not None else None
+                    return b[lo:hi]
+                i = self.ev(n.slice)
+                try:
+                    return b[i]
+                except IndexError:
+                    raise _PyExc("IndexError")
+            from ..peval import Unknown
+            raise Unknown("subscript of %r" % (b,))
+
+        def e_Compare(self, n):
+            # `x in {..}` / `x in dict`: membership among the keys
+            if len(n.ops) == 1 and isinstance(n.ops[0], (ast.In, ast.NotIn)):
+                right = self.ev(n.comparators[0])
+                if isinstance(right, dict):
+                    r = self.ev(n.left) in right
+                    return r if isinstance(n.ops[0], ast.In) else not r
+            return Base.e_Compare(self, n)
+
+        def assign(self, t, v):
+            if isinstance(t, ast.Subscript):
+                b = self.ev(t.value)
+                if isinstance(b, dict):
+                    b[self.ev(t.slice)] = v
+                    return
+            return Base.assign(self, t, v)
+
+        def stmt(self, s_):
+            if isinstance(s_, ast.Continue):
+                raise _Continue()
+            if isinstance(s_, ast.Break):
+                raise _Break()
+            if isinstance(s_, ast.For) and not s_.orelse:
+                items = self.ev(s_.iter)
+                if not isinstance(items, (list, tuple)):
+                    from ..peval import Unknown
+                    raise Unknown("loop over %r" % (items,))
+                for it in items:
+                    self.assign(s_.target, it)
+                    try:
+                        self.block(s_.body)
+                    except _Continue:
+                        continue
+                    except _Break:
+                        break
+                return
+            if isinstance(s_, ast.Try) and not s_.finalbody:
+                try:
+                    self.block(s_.body)
+                except _PyExc as e:
+                    for h in s_.handlers:
+                        hn = _type_names(h.type) if h.type is not None else {"Exception"}
+                        if e.kind in hn or hn & {"Exception", "BaseException"} or (e.kind in ("KeyError", "IndexError") and "LookupError" in hn):
+                            self.block(h.body)
+                            return
+                    raise
+                self.block(s_.orelse)
+                return
+            return Base.stmt(self, s_)
+    return Ev, hook
+
+
 def enum_evaluator(repo, rel, enums):
     """concrete evaluator (sa/peval.py + the modelled str/re calls of _shared._string_evaluator) for small functions that
     dispatch on strings / enum members: knows the members of the given enum classes ({name: (rel, class name)}) as abstract
@@ -1008,8 +1278,7 @@ def enum_evaluator(repo, rel, enums):
     on strings and enum members, and try/except around a failing lookup.  Nothing of the repository runs.
     -> (make(env) -> evaluator, members {enum: {member name: Obj}})"""
     from ..peval import Obj, Unknown, Raised
-    from ._shared import _string_evaluator
-    Base, base_hook = _string_evaluator(repo)
+    Base, base_hook = concrete_evaluator(repo)
     members, lookup = {}, {}
     for en, (erel, ecls) in enums.items():
         c = repo.cls(erel, ecls)
@@ -1053,18 +1322,10 @@ def enum_evaluator(repo, rel, enums):
             return make({}).ev(node)
         raise Unknown("unknown dotted name %s" % d)
 
-    def type_names(t):
-        if isinstance(t, (ast.Tuple, ast.List)):
-            out = set()
-            for e in t.elts:
-                out |= type_names(e)
-            return out
-        return {dotted(t) or unparse(t)}
-
     def hook(name, n, ev):
         if name == "isinstance" and len(n.args) == 2:
             v = ev.ev(n.args[0])
-            tn = type_names(n.args[1])
+            tn = _type_names(n.args[1])
             if isinstance(v, str):
                 return bool(tn & {"str", "six.string_types", "basestring", "object"})
             if isinstance(v, Obj) and v.cls in members:
@@ -1076,10 +1337,6 @@ def enum_evaluator(repo, rel, enums):
             if v is None:
                 return bool(tn & {"type(None)", "object"})
             raise Unknown("isinstance of %r" % (v,))
-        if isinstance(n.func, ast.Attribute) and n.func.attr == "get" and 1 <= len(n.args) <= 2 and not n.keywords:
-            base = ev.ev(n.func.value)
-            if isinstance(base, dict):
-                return base.get(ev.ev(n.args[0]), ev.ev(n.args[1]) if len(n.args) == 2 else None)
         if name in members and len(n.args) == 1:     # MixType(0): lookup by value
             v = ev.ev(n.args[0])
             for o in members[name].values():
@@ -1089,47 +1346,14 @@ def enum_evaluator(repo, rel, enums):
         return base_hook(name, n, ev)
 
     class Ev(Base):
-        def e_Dict(self, n):
-            return {self.ev(k): self.ev(v) for k, v in zip(n.keys, n.values)}
-
-        def e_Subscript(self, n):
-            b = self.ev(n.value)
+        def subscript_of(self, b, n):
             if isinstance(b, Obj) and b.cls == "enumclass":
                 k = self.ev(n.slice)
                 tab = lookup[b.name.split(":", 1)[1]]
                 if isinstance(k, str) and k in tab:
                     return tab[k]
                 raise _PyExc("KeyError")
-            if isinstance(b, dict):
-                k = self.ev(n.slice)
-                if k in b:
-                    return b[k]
-                raise _PyExc("KeyError")
-            return Base.e_Subscript(self, n)
-
-        def e_Compare(self, n):
-            # `x in {..}` / `x in dict`: membership among the keys
-            if len(n.ops) == 1 and isinstance(n.ops[0], (ast.In, ast.NotIn)):
-                right = self.ev(n.comparators[0])
-                if isinstance(right, dict):
-                    r = self.ev(n.left) in right
-                    return r if isinstance(n.ops[0], ast.In) else not r
-            return Base.e_Compare(self, n)
-
-        def stmt(self, s_):
-            if isinstance(s_, ast.Try) and not s_.finalbody:
-                try:
-                    self.block(s_.body)
-                except _PyExc as e:
-                    for h in s_.handlers:
-                        hn = type_names(h.type) if h.type is not None else {"Exception"}
-                        if e.kind in hn or hn & {"Exception", "BaseException", "LookupError" if e.kind == "KeyError" else "Exception"}:
-                            self.block(h.body)
-                            return
-                    raise
-                self.block(s_.orelse)
-                return
-            return Base.stmt(self, s_)
+            return Base.subscript_of(self, b, n)
 
     def make(env):
         return Ev(env, class_attr, hook)
@@ -1287,8 +1511,7 @@ def node_dispatch_tokens(repo, rcl, kinds):
     any shape of the dispatch (in-test, == chain, lookup table, conditional expression, hoisted temporaries) gives the same
     answer; only if that head is outside the evaluable fragment the syntactic reading of the `if` is used."""
     from ..peval import Obj, Unknown, Raised, Returned
-    from ._shared import _string_evaluator
-    Ev, hook0 = _string_evaluator(repo)
+    Ev, hook0 = concrete_evaluator(repo)
     ps = params(rcl)
     if len(ps) < 2:
         raise ExtractError("_read_control_line: signature changed: %s" % ps)
@@ -1312,23 +1535,12 @@ def node_dispatch_tokens(repo, rcl, kinds):
             raise Unknown("unbound name %s" % d)
         return Ev({}, consts, hook).ev(node)
 
-    class Ev(Ev):
-        def e_Dict(self, n):
-            return {self.ev(k): self.ev(v) for k, v in zip(n.keys, n.values)}
-
-    def hook_get(name, n, ev):
-        if isinstance(n.func, ast.Attribute) and n.func.attr == "get" and 1 <= len(n.args) <= 2:
-            base = ev.ev(n.func.value)
-            if isinstance(base, dict):
-                return base.get(ev.ev(n.args[0]), ev.ev(n.args[1]) if len(n.args) == 2 else None)
-        return hook(name, n, ev)
-
     out, evaluable = set(), True
     for k in kinds:
         env = {ps[0]: "%s e1 TRUE AT TIME 3600" % k, ps[1]: Obj("wn", {})}
         for extra in ps[2:]:
             env[extra] = Obj(extra, {})
-        ev = Ev(env, consts, hook_get, attr_hook)
+        ev = Ev(env, consts, hook, attr_hook)
         fetched = None
         try:
             for st in rcl.body:
@@ -1336,7 +1548,7 @@ def node_dispatch_tokens(repo, rcl, kinds):
                 fetched = [v for v in ev.env.values() if isinstance(v, Obj) and v.name in ("get_node", "get_link") and v.attrs.get("arg") == "e1"]
                 if fetched:
                     break
-        except (Unknown, Raised, Returned, TypeError, IndexError, KeyError, AttributeError):
+        except (Unknown, Raised, Returned, _PyExc, _Continue, _Break, TypeError, IndexError, KeyError, AttributeError):
             fetched = None
         if not fetched:
             evaluable = False
@@ -1521,10 +1733,14 @@ def rule_control_text(repo, chk, fd):
     if ctd is None:
         raise AnchorError("control to_dict not found")
     emitted = {}
-    for n in walk(ctd):
-        if isinstance(n, ast.Assign) and isinstance(n.targets[0], ast.Subscript) and isinstance(const(n.targets[0].slice), str):
-            br = "rule" if (isinstance(parent(n), ast.If) and n in parent(n).body) else "simple"
-            emitted.setdefault(br, set()).add(const(n.targets[0].slice))
+    for d_ in returned_dicts(ctd):
+        br = d_.get("type") if isinstance(d_.get("type"), str) else "?"
+        emitted.setdefault(br, set()).update(k for k in d_ if isinstance(k, str))
+    if not emitted:
+        for n in walk(ctd):
+            if isinstance(n, ast.Assign) and isinstance(n.targets[0], ast.Subscript) and isinstance(const(n.targets[0].slice), str):
+                br = "rule" if (isinstance(parent(n), ast.If) and n in parent(n).body) else "simple"
+                emitted.setdefault(br, set()).add(const(n.targets[0].slice))
     ctrl_loop = None
     for n in walk(fd):
         if isinstance(n, ast.For) and isinstance(n.iter, ast.Subscript) and const(n.iter.slice) == "controls":
@@ -1576,7 +1792,7 @@ def rule_options(repo, chk):
         for n in walk(ini):
             if isinstance(n, ast.Assign) and isinstance(n.targets[0], ast.Attribute) and dotted(n.targets[0].value) == "self":
                 names = {x.id for x in ast.walk(n.value) if isinstance(x, ast.Name)}
-                stored[n.targets[0].attr] = names
+                stored.setdefault(n.targets[0].attr, set()).update(names)     # union over the arms of a two-way choice
         for a, names in sorted(stored.items()):
             chk.expect(a in pp and a in names, "R-C13-4", "%s: __dict__ key %r is a constructor keyword stored from itself" % (cls, a), loc(ini),
                        "to_dict emits key %r (it is in __dict__); from_dict passes it to %s(**d): it must be an accepted keyword stored under the same name" % (a, cls),
@@ -1684,6 +1900,60 @@ WITNESSES = [
     dict(name="p-from-dict-hoisted-node-type", file=NIO,
          old='            name = node["name"]\n            if node["node_type"] == "Junction":\n',
          new='            name = node["name"]\n            node_type = node["node_type"]\n            if node_type == "Junction":\n', silent=True),
+    dict(name="p-link-to-dict-guard-clauses-and-module-exclusion-tuple", file=BASE,
+         old="            if not k.startswith('_') and k not in [\n                'flow', 'cv', 'friction_factor', 'headloss',\n"
+             "                'quality', 'reaction_rate', 'setting', 'status', 'velocity', 'speed_timeseries',\n            ]:\n"
+             "                val = getattr(self, k)\n                if not isinstance(val, types.MethodType):\n                    if hasattr(val, \"to_ref\"):\n"
+             "                        if hasattr(self, k+\"_name\") and getattr(self, k+\"_name\") is not None:\n                            continue\n"
+             "                        d[k] = val.to_ref()\n                    elif hasattr(val, \"to_list\"):\n                        d[k] = val.to_list()\n"
+             "                    elif hasattr(val, \"to_dict\"):\n                        d[k] = val.to_dict()\n"
+             "                    elif isinstance(val, (enum.IntEnum, enum.Enum)):\n                        d[k] = str(val)\n                    else:\n"
+             "                        d[k] = val\n",
+         new="            if k.startswith('_') or k in _LINK_DICT_EXCLUDE:\n                continue\n            val = getattr(self, k)\n"
+             "            if isinstance(val, types.MethodType):\n                continue\n"
+             "            if hasattr(val, \"to_ref\") and hasattr(self, k+\"_name\") and getattr(self, k+\"_name\") is not None:\n                continue\n"
+             "            if hasattr(val, \"to_ref\"):\n                d[k] = val.to_ref()\n            elif hasattr(val, \"to_list\"):\n                d[k] = val.to_list()\n"
+             "            elif hasattr(val, \"to_dict\"):\n                d[k] = val.to_dict()\n            else:\n"
+             "                d[k] = str(val) if isinstance(val, (enum.IntEnum, enum.Enum)) else val\n",
+         also=[("class AbstractModel(object):\n", "_LINK_DICT_EXCLUDE = ('flow', 'cv', 'friction_factor', 'headloss',\n                      'quality', 'reaction_rate', 'setting', 'status', "
+                "'velocity',\n                      'speed_timeseries')\n\n\nclass AbstractModel(object):\n")], silent=True),
+    dict(name="link-to-dict-emits-cv-which-from-dict-does-not-read", file=BASE, old="'flow', 'cv', 'friction_factor', 'headloss',",
+         new="'flow', 'friction_factor', 'headloss',", rule="R-C13-1"),
+    dict(name="p-timeseries-to-dict-literal", file=ELEM,
+         old="        d = dict(base_val=self._base)\n        # if isinstance(self._pattern, six.string_types):\n        d['pattern_name'] = self.pattern_name\n"
+             "        # if self._category:\n        d['category'] = self.category\n        return d\n",
+         new="        return {\n            'base_val': self._base,\n            'pattern_name': self.pattern_name,\n            'category': self.category,\n        }\n",
+         silent=True),
+    dict(name="timeseries-to-dict-new-key-not-read", file=ELEM,
+         old="        d['category'] = self.category\n        return d\n", new="        d['category'] = self.category\n        d.update(scale=1.0)\n        return d\n",
+         rule="R-C13-1b"),
+    dict(name="p-rule-to-dict-two-literals", file=CTRL,
+         old="        ret = dict()\n        if self._control_type == _ControlType.rule:\n            ret['type'] = 'rule'\n            ret['name'] = str(self._name)\n"
+             "            ret['condition'] = str(self._condition)\n            ret['then_actions'] = [str(a) for a in self._then_actions]\n"
+             "            ret['else_actions'] = [str(a) for a in self._else_actions]\n            ret['priority'] = int(self._priority)\n        else:\n"
+             "            ret['type'] = 'simple'\n            ret['condition'] = str(self._condition)\n            ret['then_actions'] = [str(a) for a in self._then_actions]\n"
+             "        return ret\n",
+         new="        if self._control_type == _ControlType.rule:\n            return {'type': 'rule', 'name': str(self._name), 'condition': str(self._condition),\n"
+             "                    'then_actions': [str(a) for a in self._then_actions], 'else_actions': [str(a) for a in self._else_actions],\n"
+             "                    'priority': int(self._priority)}\n"
+             "        return {'type': 'simple', 'condition': str(self._condition), 'then_actions': [str(a) for a in self._then_actions]}\n", silent=True),
+    dict(name="rule-to-dict-new-key-not-read", file=CTRL, old="            ret['priority'] = int(self._priority)\n",
+         new="            ret['priority'] = int(self._priority)\n            ret['enabled'] = True\n", rule="R-C13-3e"),
+    dict(name="p-from-dict-demand-entry-temporaries", file=NIO,
+         old='                    base_demand = dl[0].setdefault("base_val", 0.0)\n                    pattern_name = dl[0].setdefault("pattern_name")\n'
+             '                    demand_category = dl[0].setdefault("category")\n',
+         new='                    first_demand = dl[0]\n                    base_demand = first_demand.setdefault("base_val", 0.0)\n'
+             '                    pattern_name = first_demand.setdefault("pattern_name")\n                    demand_category = first_demand.setdefault("category")\n',
+         also=[('                        base_val = dl[i].setdefault("base_val", 0.0)\n                        pattern_name = dl[i].setdefault("pattern_name")\n'
+                '                        category = dl[i].setdefault("category")\n',
+                '                        extra_demand = dl[i]\n                        base_val = extra_demand.setdefault("base_val", 0.0)\n'
+                '                        pattern_name = extra_demand.setdefault("pattern_name")\n                        category = extra_demand.setdefault("category")\n')],
+         silent=True),
+    dict(name="further-demands-lose-their-category", file=NIO, old='                        category = dl[i].setdefault("category")\n',
+         new='                        category = None\n', rule="R-C13-1b"),
+    dict(name="p-options-default-by-if-statement", file=OPTS,
+         old="        self.param_opts = param_opts if param_opts is not None else _new_param_opts()\n",
+         new="        if param_opts is not None:\n            self.param_opts = param_opts\n        else:\n            self.param_opts = _new_param_opts()\n", silent=True),
     dict(name="reorder-preserving", file=NIO, old='                p.bulk_coeff = link.setdefault("bulk_coeff")\n                p.tag = link.setdefault("tag")\n',
          new='                p.tag = link.setdefault("tag")\n                p.bulk_coeff = link.setdefault("bulk_coeff")\n', silent=True),
 ]
